@@ -14,7 +14,7 @@ RULE = ('three adversaries against real endpoints stepped through their real mai
         'configurations, and presents AUTH/ID variants: valid (control: must be accepted), wrong PSK, the victim\'s own PSK, empty PSK, AUTH '
         'reflected or replayed, AUTH over the wrong message / nonce / SK_p / identity / a modified IKE_SA_INIT message, truncated or extended AUTH, wrong ID '
         'data / type, method substitution (PSK value under RSA method and vice versa, public key used as PSK, unknown methods), RSA signature by another '
-        'key or over other octets; protected CREATE_CHILD_SA / INFORMATIONAL / incomplete IKE_AUTH messages sent IN PLACE of IKE_AUTH right after IKE_SA_INIT. The oracle recomputes, from the victim\'s configured credential and the exact octets the victim sent / received, whether '
+        'key or over other octets; protected CREATE_CHILD_SA / INFORMATIONAL / incomplete IKE_AUTH messages sent IN PLACE of IKE_AUTH right after IKE_SA_INIT, to a real responder (requests) and to a real initiator (responses with the awaited Message ID: other exchange types, bare CHILD_SA refusals, an identity without AUTH, a wrong AUTH next to a refusal). The oracle recomputes, from the victim\'s configured credential and the exact octets the victim sent / received, whether '
         'the presented AUTH+ID are valid; the victim may be ESTABLISHED or emit NEWSA iff they are. (C) MAN IN THE MIDDLE between two real endpoints: '
         'every reference-decoded field of IKE_SA_INIT request / response mutated (SPIs, nonce, KE, group, transform ids / key lengths / order, proposal '
         'number, flags, Message ID), payloads inserted / removed / reordered / replaced, proposal downgrade, and non-semantic rewrites (reserved bits, critical '
@@ -293,6 +293,90 @@ def skip_auth_case(ck, seed, vi, rng):
             if est or newsa_count(b) != n0 or len(b.ctl.ike_sas) > tab0:
                 ck.violation(f'established-or-installed-without-any-auth-exchange:{label}', {'newsa': newsa_count(b) - n0, 'states': [s_.state.name for s_ in b.ctl.ike_sas]}, sim.case)
                 return
+
+
+def skip_auth_initiator_variants(p, rng, inner):
+    """What a party holding only the DH-derived keys (no credential) can send where the IKE_AUTH response is expected."""
+    def n(nt, data=b''):
+        return {'type': codec.NOTIFY, 'critical': False, 'proto': 0, 'spi': b'', 'ntype': nt, 'data': data}
+    sa = next(x for x in inner if x['type'] == codec.SA)
+    tsi = next(x for x in inner if x['type'] == codec.TSI)
+    tsr = next(x for x in inner if x['type'] == codec.TSR)
+    pr, chosen = party.pick_suite(sa['proposals'])
+    sa_r = {'type': codec.SA, 'critical': False, 'proposals': [{'num': pr['num'], 'proto': pr['proto'], 'spi': gen.rb(rng, 4), 'transforms': [t for t in chosen if t['type'] != 4]}]}
+    nonce = {'type': codec.NONCE, 'critical': False, 'data': gen.rb(rng, 32)}
+    idr = {'type': codec.IDR, 'critical': False, 'idtype': ID_B[0], 'data': ID_B[1]}
+    bad_auth = {'type': codec.AUTH, 'critical': False, 'method': 2, 'data': p.auth_psk(b'not-the-configured-psk', *ID_B)}
+    own_auth = {'type': codec.AUTH, 'critical': False, 'method': 2, 'data': p.auth_psk(PSK_A, *ID_B)}
+    out = [('informational-response', 37, []),
+           ('informational-response-with-delete', 37, [{'type': codec.DELETE, 'critical': False, 'proto': 1, 'spis': []}]),
+           ('create-child-sa-response', 36, [sa_r, nonce, tsi, tsr]),
+           ('ike-sa-init-exchange-type-protected', 34, []),
+           ('ike-auth-empty', 35, []),
+           ('ike-auth-child-only', 35, [sa_r, tsi, tsr]),
+           ('ike-auth-id-only', 35, [idr, sa_r, tsi, tsr]),
+           ('ike-auth-auth-only', 35, [bad_auth, sa_r, tsi, tsr])]
+    for nt in (14, 38, 34, 35, 37, 39, 43, 44, 16384, 16388, 16394, 40960):
+        out.append((f'ike-auth-only-notify-{nt}', 35, [n(nt)]))
+    for nt in (14, 38):
+        out.append((f'ike-auth-id-without-auth-and-notify-{nt}', 35, [idr, n(nt)]))
+        out.append((f'ike-auth-id-wrong-psk-auth-and-notify-{nt}', 35, [idr, bad_auth, n(nt)]))
+        out.append((f'ike-auth-id-auth-keyed-with-the-victims-own-psk-and-notify-{nt}', 35, [idr, own_auth, n(nt)]))
+        out.append((f'ike-auth-notify-{nt}-in-front-of-id-and-wrong-auth', 35, [n(nt), idr, bad_auth]))
+        out.append((f'ike-auth-other-identity-right-psk-and-notify-{nt}', 35, [{'type': codec.IDR, 'critical': False, 'idtype': 2, 'data': b'mallory.example.org'},
+                    {'type': codec.AUTH, 'critical': False, 'method': 2, 'data': p.auth_psk(PSK_B, 2, b'mallory.example.org')}, n(nt)]))
+    return out
+
+
+def skip_auth_initiator_case(ck, seed, vi, rng, auth='psk'):
+    """Mirror image of skip_auth_case: the real endpoint is the INITIATOR; a responder that completed IKE_SA_INIT (which needs no credential) sends, protected with the
+    fresh keys and with the awaited Message ID, something else than a complete IKE_AUTH response: another exchange type, a bare CHILD_SA refusal, an identity
+    without AUTH, a wrong AUTH next to a refusal. The initiator must not be established, must install nothing, and must not start exchanges that need an
+    established IKE_SA (a later ACQUIRE included)."""
+    sim, a, b = S.make_pair(seed, auth=auth)
+    sim.acquire(a, 0)
+    if not sim.net:
+        return 'done'
+    req = sim.net.pop(0).data
+    p = party.RefParty(S.B4, S.A4, rng)
+    sim.inject(a, S.B4, S.A4, p.respond_init(req))
+    if not sim.net:
+        return 'done'
+    areq = sim.net.pop(0).data
+    hdr, inner, _i = p.open(areq)
+    vs = skip_auth_initiator_variants(p, rng, inner)
+    if vi >= len(vs):
+        return 'done'
+    label, exch, pls = vs[vi]
+    sim.case = {'family': 'skip-auth-initiator', 'variant': label, 'auth': auth}
+    n0 = newsa_count(a)
+    sim.inject(a, S.B4, S.A4, p.seal(exch, hdr['mid'], pls, response=True))
+    ck.count('skipauth.initiator_variants')
+    ck.seen('skipauth.initiator_labels', (auth, label))
+    ck.nontrivial(('skip-auth-initiator', auth, label))
+    est = established(a)
+    later = 0
+    if not est:
+        # whatever the victim sends from here on, answered with empty protected responses; and the kernel asks again for the same traffic
+        sim.net.clear()
+        sim.acquire(a, 0)
+        for _ in range(6):
+            for d in [x for x in sim.net if x.dst == S.B4]:
+                sim.net.remove(d)
+                try:
+                    h2, in2, _ = p.open(d.data)
+                except Exception:
+                    continue
+                if h2['spi_i'] == p.spi_i and not h2['flags'] & 0x20 and h2['exch'] in (36, 37):
+                    later += 1
+            sim.clock.advance(1.0)
+            a.step('tick')
+        est = any(s_.state.value >= 10 and s_.state.value < 21 and s_.my_spi == p.spi_i for s_ in a.ctl.ike_sas)
+    if est or later or newsa_count(a) != n0:
+        ck.violation(f'initiator-established-or-installed-without-verifying-any-auth:{label.rstrip("0123456789-") if "only-notify" in label else label}',
+                     {'variant': label, 'established': est, 'newsa': newsa_count(a) - n0, 'requests_needing_an_established_ike_sa_sent_later': later,
+                      'states': [s_.state.name for s_ in a.ctl.ike_sas]}, sim.case)
+    return label
 
 
 # ---------------------------------------------------------------------------------------- (C) man in the middle
@@ -684,6 +768,12 @@ def run(ck):
         n += 1
         if ck.mine(n):
             skip_auth_case(ck, base + n, j, ck.rng('skip', n))
+    for rep in range(1 if not thorough else 6):
+        for auth in ('psk', 'rsa'):
+            for vi in range(60):
+                n += 1
+                if ck.mine(n) and skip_auth_initiator_case(ck, base + n, vi, ck.rng('skipi', n), auth) == 'done':
+                    pass
     # (C)
     for ci, conf in enumerate(MITM_CONFS):
         for which in ('request', 'response'):
@@ -737,5 +827,6 @@ def verdict(ck):
     ck.floor('octets-only rewrites', c['mitm.request.octets-only'] + c['mitm.response.octets-only'], 50)
     ck.floor('mismatch handshakes', c['mismatch.handshakes'], 30)
     ck.floor('exchanges sent in place of IKE_AUTH', c['skipauth.variants'], 20)
+    ck.floor('protected messages sent to a real initiator in place of a complete IKE_AUTH response', c['skipauth.initiator_variants'], 50)
     ck.floor('accepted AUTH re-verified online', c['mismatch.auth_reverified'], 6)
     return {'rewrite_labels': len(ck.sets['mitm.rewrites'])}
